@@ -6,9 +6,6 @@ P = "repid/data/_parameters.py::Parameters."
 
 def register(db):
     # history invariant established by the previous scheduling: S = the scheduled time of the iteration that ran
-    db.contract(
-        fn=P + "_prepare_reschedule#cadence", serves=["C06"],
-    ) if False else None
     c = db.contracts[P + "_prepare_reschedule"]
     c.ensures["cadence"] = ("implies(periodic(self, now) and self.delay.next_execution_time is not None"
                             " and self.delay.next_execution_time <= now,"
